@@ -592,6 +592,7 @@ const (
 type DialOutcome struct {
 	Kind    int
 	Deaf    bool           // a parked invocation ignores the end of its context (a Dialer need not honour it in time)
+	Err     error          // the error of a failing outcome (nil: a refused connection)
 	Connack *ConnackPolicy // nil = world default
 }
 
@@ -666,8 +667,12 @@ func (w *World) dialer(ctx context.Context) (net.Conn, error) {
 		}
 	}
 	if o.Kind == DialErr || o.Kind == DialParkErr {
-		w.log(Event{Kind: EvDialRet, Err: errDial})
-		return nil, errDial
+		err := error(errDial)
+		if o.Err != nil {
+			err = o.Err
+		}
+		w.log(Event{Kind: EvDialRet, Err: err})
+		return nil, err
 	}
 	c := w.newConn()
 	if o.Connack != nil {
